@@ -1757,6 +1757,32 @@ pub fn run_call_histories(tier: &str, light: bool, deadline: Instant, total: &mu
     if light {
         return;
     }
+    // long histories (hundreds of calls on one builder): counters, stamps or caches kept by the
+    // builder across calls (S214: a one-byte epoch that wraps at the 256th reachability search)
+    {
+        let hs = long_call_histories(tier);
+        let t0 = Instant::now();
+        let mut st = Stats::default();
+        let hs_ref = &hs;
+        let capped = par_for(
+            hs.len(),
+            deadline,
+            Stats::default,
+            |i, local: &mut Stats| {
+                let (n, calls) = &hs_ref[i];
+                c16_eval_mode(*n, calls, 0, false, local);
+                c16_eval_mode(*n, calls, 0, true, local);
+                local.fold_hashes();
+            },
+            |l| st.merge(l),
+        );
+        st.capped |= capped;
+        let longest = hs.iter().map(|h| h.1.len()).max().unwrap_or(0);
+        let label = format!("{} long call histories (up to {longest} calls on one builder): the edges of a complete DAG / a layered graph on 24..40 functions in 3 orders, interleaved with cycle-closing, self, repeated and kind-changing calls every 1..4 calls at every offset", hs.len());
+        log.push(json!({"space": label, "sequences": st.execs, "completed": !st.capped, "wall_s": t0.elapsed().as_secs_f64()}));
+        eprintln!("  [{label}] evaluated={} viol={} {}{:.1}s", st.execs, st.viol_total, if st.capped { "CAPPED " } else { "" }, t0.elapsed().as_secs_f64());
+        total.merge(st);
+    }
     // deeper histories on more functions: grow a DAG edge by edge, probe every call in every state
     let probes: Vec<(usize, usize)> = if tier == "thorough" { vec![(5, 8), (6, 6), (6, 7)] } else { vec![(5, 7), (6, 6)] };
     for (n, depth) in probes {
@@ -2111,6 +2137,51 @@ pub fn run_build_props(prop: u8, tier: &str, deadline: Instant, total: &mut Stat
         }
         _ => unreachable!(),
     }
+}
+
+/// Long builder histories: the edge list of a dense DAG in some order, with a probe call inserted
+/// after every `every`-th edge (phase `offset`): the reverse of an earlier accepted edge (closes a
+/// cycle), a self edge, the same pair again, or the same pair with the other kind.
+fn long_call_histories(tier: &str) -> Vec<(usize, Vec<Call>)> {
+    let mut out = vec![];
+    let ns: &[usize] = if tier == "thorough" { &[24, 30, 40] } else { &[24, 30] };
+    for &n in ns {
+        let mut bases: Vec<Vec<(usize, usize)>> = vec![];
+        let complete: Vec<(usize, usize)> = (0..n).flat_map(|i| (i + 1..n).map(move |j| (i, j))).collect();
+        bases.push(complete.clone());
+        bases.push(complete.iter().rev().copied().collect());
+        let mut by_distance = complete.clone();
+        by_distance.sort_by_key(|&(a, b)| (b - a, a));
+        bases.push(by_distance);
+        let (ln, le) = family(Family::Layered(4), n / 4);
+        if ln == n {
+            bases.push(le);
+        }
+        for base in &bases {
+            for every in 1..=4usize {
+                for offset in 0..every {
+                    for probe_kind in 0..2usize {
+                        let mut calls: Vec<Call> = vec![];
+                        for (k, &(a, b)) in base.iter().enumerate() {
+                            calls.push(Call { from: a, to: b, contains: k % 3 == 1 });
+                            if (k + offset) % every == 0 {
+                                // an earlier accepted edge, far back in the history
+                                let (pa, pb) = base[k / 2];
+                                let c = match (k / every + probe_kind) % 4 {
+                                    0 | 1 => Call { from: pb, to: pa, contains: k % 2 == 0 }, // closes a cycle
+                                    2 => Call { from: pa, to: pb, contains: k % 2 == 0 },     // repeated pair, maybe other kind
+                                    _ => Call { from: a, to: a, contains: false },            // self edge
+                                };
+                                calls.push(c);
+                            }
+                        }
+                        out.push((n, calls));
+                    }
+                }
+            }
+        }
+    }
+    out
 }
 
 /// Replays a recorded C16 call sequence (the spec's edge list is the call list).
